@@ -172,3 +172,12 @@ func Ints(v any) []int {
 	}
 	return out
 }
+
+// Decode converts a value taken from a replay spec (generic JSON) into a typed value.
+func Decode(v any, out any) error {
+	b, err := json.Marshal(v)
+	if err != nil {
+		return err
+	}
+	return json.Unmarshal(b, out)
+}
